@@ -102,9 +102,16 @@ def check_run(ctx, bt, spec):
             for a in nd.stack.algos:
                 if isinstance(a, FlagSpy):
                     spy += a.log
-    if any(x[2] for x in spy):
-        bad = [x for x in spy if x[2]][0]
+    # the backtest must not START the root's stack on a flagged root.  (A bankruptcy detected by an update issued from inside the
+    # root's own stack - e.g. by its Rebalance - sets the flag in the middle of run(): the sub-strategies' stacks are then still
+    # called on that same date, on a liquidated tree with no cash; that is not "running the algos after bankruptcy" - what matters,
+    # and is checked below, is that positions are flat at the end of that date and that no stack is called on any later date.)
+    root_name = root.full_name
+    if any(x[2] for x in spy if x[1] == root_name):
+        bad = [x for x in spy if x[2] and x[1] == root_name][0]
         ctx.violation("C16/algos-ran-while-bankrupt", "algo stack of %s called on %s with the root flagged bankrupt" % (bad[1], bad[0]), rd)
+    if any(x[2] for x in spy if x[1] != root_name):
+        ctx.count("sub-strategy-stack-called-on-the-bankruptcy-date-after-liquidation")
     if not flagged:
         return
     bidx = [i for i, v in enumerate(vals) if v < 0][0]
